@@ -16,21 +16,27 @@ ROOT = os.path.dirname(os.path.dirname(os.path.abspath(__file__)))
 VENV_PY = '/venv/bin/python'
 
 
-def load_prop(pid):
-    mods = sorted(glob.glob(os.path.join(ROOT, 'contracts', pid + '_*.py')))
+def prop_modules(pid):
+    """A property may be split over several sidecar modules: Cxx_*.py, Cxxb_*.py, ... (each with its own Prop)."""
+    mods = sorted(glob.glob(os.path.join(ROOT, 'contracts', pid + '_*.py')) + glob.glob(os.path.join(ROOT, 'contracts', pid + '[a-z]_*.py')))
     if not mods:
         raise SystemExit('no contracts for %s' % pid)
-    name = os.path.basename(mods[0])[:-3]
+    return [os.path.basename(m)[:-3] for m in mods]
+
+
+def load_prop(pid, modname=None):
+    name = modname or prop_modules(pid)[0]
     mod = importlib.import_module('contracts.' + name)
     return mod.P, mod
 
 
 def _work(args):
-    pid, cname, repo, timeout_ms, par_hint = args
+    pid, cname, repo, timeout_ms, par_hint = args[:5]
+    modname = args[5] if len(args) > 5 else None
     import z3  # noqa
     from pyvc.engine import Engine, Unsupported, ContractError
     from pyvc.solve import discharge_safe as discharge
-    P, _ = load_prop(pid)
+    P, _ = load_prop(pid, modname)
     c = P.contracts[cname]
     # contracts whose obligations are known to be slow carry their own budget (sized so that verdicts do not flip under load)
     timeout_ms = max(timeout_ms, int(getattr(c, 'solver_ms', 0) or 0))
@@ -156,10 +162,17 @@ def main(argv=None):
         return replay(pid, a.replay, repo, seed)
     P, mod = load_prop(pid)
     timeout_ms = 15000 if tier == 'quick' else 60000
-    names = [n for n in P.order if (not a.only or n in a.only.split(','))]
-    live = [n for n in names if not P.contracts[n].trusted]
+    pairs = []
+    for mn in prop_modules(pid):
+        Pm, _ = load_prop(pid, mn)
+        if Pm is not P:
+            # further sidecar modules of the same property: their assumptions / unverified surroundings are reported too
+            P.assumptions += [x for x in Pm.assumptions if x not in P.assumptions]
+            P.unverified += [x for x in Pm.unverified if x not in P.unverified]
+        pairs += [(mn, n, Pm.contracts[n].trusted) for n in Pm.order if (not a.only or n in a.only.split(','))]
+    live = [1 for _, _, tr in pairs if not tr]
     par_hint = max(1, min(8, 16 // max(1, len(live))))
-    jobs = [(pid, n, repo, timeout_ms, par_hint) for n in names]
+    jobs = [(pid, n, repo, timeout_ms, par_hint, mn) for mn, n, _ in pairs]
     ncpu = min(16, os.cpu_count() or 4, max(1, len(jobs)))
     nb = 15 if tier == 'quick' else 240
     from concurrent.futures import ThreadPoolExecutor
